@@ -72,7 +72,8 @@ Proper(S, e) == CallResult(S, e.token, e.method, e.caller, e.a1, e.a2, e.amt, FA
 (* the logged observation against the expected state X *)
 ObsCheck(o, X) ==
   IF \E t \in TraceTokens, h \in Projected : o.bal[t][h] # X.bal[t][h]
-    THEN <<"Bal", "bank-balance-differs-token-" \o (CHOOSE t \in TraceTokens : \E h \in Projected : o.bal[t][h] # X.bal[t][h])>>
+    THEN LET p == CHOOSE p \in TraceTokens \X Projected : o.bal[p[1]][p[2]] # X.bal[p[1]][p[2]]
+         IN <<"Bal", "bank-balance-differs-token-" \o p[1] \o "-holder-" \o p[2]>>
   ELSE IF \E t \in TraceTokens : o.supply[t] # X.supply[t]
     THEN <<"Supply", "bank-supply-differs-token-" \o (CHOOSE t \in TraceTokens : o.supply[t] # X.supply[t])>>
   ELSE IF \E t \in TraceTokens, ow \in Owners, s \in Spenders : AllowObs(o.allowV[t], ow, s) # X.allow[t][ow][s]
@@ -132,7 +133,11 @@ TrCall ==
                   /\ PrintT(<<"DEVIATION", l, "D5", cp[1], cp[2]>>)
            ELSE LET c == IF "D5" \in Known /\ dev # {} THEN cd ELSE cp IN
                 err' = <<l, c[1], c[2]>> /\ PrintT(<<"LAWBROKEN", l, c[1], c[2]>>) /\ UNCHANGED <<bal, supply, allow, dev>>
-        /\ cls' = Bump(Bump(cls, e.method \o "." \o outcome), "via." \o e.via)
+        /\ LET c1 == Bump(Bump(cls, e.method \o "." \o outcome), "via." \o e.via)
+               (* vacuity counter: successful burns while the cpc module account (through which burns are routed) holds the token *)
+               parked == "cpcmod" \in Projected /\ e.ok /\ e.method \in {"burn", "burnFrom"} /\ e.amt.t = "N" /\ e.amt.v > 0
+                         /\ S0.bal[e.token]["cpcmod"] > 0
+           IN cls' = IF parked THEN Bump(c1, "burn.ok.while-module-account-holds") ELSE c1
   /\ n' = n + 1 /\ UNCHANGED <<last, logs, burnt, hist>>
 
 TrBankSend ==
